@@ -1275,7 +1275,7 @@ SDgetdimid(int32 sdsid, /* IN: dataset ID */
     }
 
     /* check if enough / too many dims */
-    if ((var->assoc == NULL) || (var->assoc->count < (unsigned)number)) {
+    if ((var->assoc == NULL) || (var->assoc->count <= (unsigned)number)) {
         HGOTO_ERROR(DFE_ARGS, FAIL);
     }
 
